@@ -62,6 +62,15 @@ PAYLOAD_POOL = [
     "٣",  # ARABIC-INDIC DIGIT THREE
     "a b",  # NBSP inside
     " x",  # leading NBSP
+    # interior characters str.splitlines would split on: legal in a RECEIVED payload (the transport splits on \n only);
+    # outside C01's round-trip domain (filtered there by spec.payload_ok_for_roundtrip)
+    "first line\rsecond line",
+    "a\x0bb",
+    "a\x0cb",
+    "a\x1cb",
+    "a\x85b",
+    "l1\u2028l2",
+    "l1\u2029l2",
 ]
 
 NUMBER_PAYLOADS = ["", "0", "1", "55", "100", "101", "150", "-1", "-3", "-3.5", "99.5", "100.4", "100.5",
